@@ -13,6 +13,7 @@ CONSTANTS
   Dev_RsrcRecursion = TRUE
   Dev_FirstDepth = TRUE
   Dev_KidsDepth = TRUE
+  FirstWalkIterative = FALSE
   StackFrames = 1000
   StackFramesMax = 65536
   OutlineDepthLimit = 256
